@@ -33,6 +33,8 @@ const (
 	kNonNil
 	kBigInt
 	kBigSlice
+	kPosInt   // integer >= 1 (length of a non-empty slice)
+	kNonEmpty // slice/string with at least one element
 	kTop
 )
 
@@ -48,6 +50,8 @@ var (
 	latNonNil   = lat{k: kNonNil}
 	latBigInt   = lat{k: kBigInt}
 	latBigSlice = lat{k: kBigSlice}
+	latPosInt   = lat{k: kPosInt}
+	latNonEmpty = lat{k: kNonEmpty}
 	latTrue     = lat{k: kConst, c: constant.MakeBool(true)}
 	latFalse    = lat{k: kConst, c: constant.MakeBool(false)}
 )
@@ -68,6 +72,10 @@ func (l lat) String() string {
 		return "ω"
 	case kBigSlice:
 		return "slice[ω]"
+	case kPosInt:
+		return "≥1"
+	case kNonEmpty:
+		return "slice[≥1]"
 	}
 	return "⊤"
 }
@@ -92,19 +100,25 @@ func join(a, b lat) lat {
 	if a.eq(b) {
 		return a
 	}
-	nn := func(x lat) bool { return x.k == kNonNil || x.k == kBigSlice }
+	nn := func(x lat) bool { return x.k == kNonNil || x.k == kBigSlice || x.k == kNonEmpty }
 	if nn(a) && nn(b) {
 		return latNonNil
 	}
 	return latTop
 }
 
-func (l lat) isTrue() bool  { return l.k == kConst && l.c.Kind() == constant.Bool && constant.BoolVal(l.c) }
-func (l lat) isFalse() bool { return l.k == kConst && l.c.Kind() == constant.Bool && !constant.BoolVal(l.c) }
+func (l lat) isTrue() bool {
+	return l.k == kConst && l.c.Kind() == constant.Bool && constant.BoolVal(l.c)
+}
+func (l lat) isFalse() bool {
+	return l.k == kConst && l.c.Kind() == constant.Bool && !constant.BoolVal(l.c)
+}
 
 // mayBe* are used to phrase "success" of a return.
 func (l lat) mayBeNil() bool    { return l.k == kNil || l.k == kTop }
-func (l lat) mayBeNonNil() bool { return l.k == kNonNil || l.k == kBigSlice || l.k == kTop }
+func (l lat) mayBeNonNil() bool {
+	return l.k == kNonNil || l.k == kBigSlice || l.k == kNonEmpty || l.k == kTop
+}
 func (l lat) mayBeTrue() bool   { return l.isTrue() || l.k == kTop }
 func (l lat) mayBeNonZero() bool {
 	if l.k == kConst && l.c.Kind() == constant.Int {
@@ -125,18 +139,44 @@ type Assume struct {
 func calleeAssume(val lat, result int, names ...string) Assume {
 	set := map[string]bool{}
 	for _, n := range names {
-		set[n] = true
+		set[normName(n)] = true
 	}
 	return Assume{Name: strings.Join(names, "|"), Result: result, Val: val,
-		Match: func(_ ssa.CallInstruction, callee string, _ *ssa.Function) bool { return set[callee] }}
+		Match: func(_ ssa.CallInstruction, callee string, _ *ssa.Function) bool { return set[normName(callee)] }}
+}
+
+// normName removes type-argument lists and the pointer marker of a receiver so
+// that "(*p.T[K]).M", "(p.T).M" and "(*p.T).M" compare equal.
+func normName(s string) string {
+	var sb strings.Builder
+	depth := 0
+	for _, r := range s {
+		switch {
+		case r == '[':
+			depth++
+		case r == ']':
+			depth--
+		case depth == 0:
+			sb.WriteRune(r)
+		}
+	}
+	return strings.Replace(sb.String(), "(*", "(", 1)
+}
+
+// BinAssume binds the result of matching inline comparisons.
+type BinAssume struct {
+	Name  string
+	Match func(b *ssa.BinOp, in *ssa.Function) bool
+	Val   lat
 }
 
 type GuardQuery struct {
-	P        *Program
-	Root     *ssa.Function
-	Args     []lat // abstract arguments of Root (nil => all top)
-	Assumes  []Assume
-	MaxDepth int
+	P          *Program
+	Root       *ssa.Function
+	Args       []lat // abstract arguments of Root (nil => all top)
+	Assumes    []Assume
+	BinAssumes []BinAssume
+	MaxDepth   int
 	// NoInline: callee names never descended into (result top)
 	NoInline map[string]bool
 }
@@ -147,11 +187,11 @@ type retInfo struct {
 }
 
 type GuardResult struct {
-	Returns  []retInfo
-	Sites    map[string][]string // assume name -> positions of matched, executable sites
-	Visited  int                 // function contexts analysed
-	Panics   int
-	Unknown  []string // reasons precision was lost (informational)
+	Returns []retInfo
+	Sites   map[string][]string // assume name -> positions of matched, executable sites
+	Visited int                 // function contexts analysed
+	Panics  int
+	Unknown []string // reasons precision was lost (informational)
 }
 
 type gEngine struct {
@@ -274,24 +314,9 @@ func constLat(c *ssa.Const) lat {
 	return latTop
 }
 
-// trackedAlloc reports whether a is a scalar local only ever stored to / loaded from.
+// trackedAlloc reports whether a is a scalar local only ever stored to / loaded from
+// (closures may capture it as long as they only read it).
 func trackedAlloc(a *ssa.Alloc) bool {
-	if a.Heap {
-		// named results spilled because of defer/closures are Heap only if captured; be conservative
-		for _, r := range *a.Referrers() {
-			switch x := r.(type) {
-			case *ssa.Store:
-				if x.Addr != a {
-					return false
-				}
-			case *ssa.UnOp:
-			case *ssa.DebugRef:
-			default:
-				return false
-			}
-		}
-		return true
-	}
 	for _, r := range *a.Referrers() {
 		switch x := r.(type) {
 		case *ssa.Store:
@@ -300,6 +325,26 @@ func trackedAlloc(a *ssa.Alloc) bool {
 			}
 		case *ssa.UnOp:
 		case *ssa.DebugRef:
+		case *ssa.MakeClosure:
+			fn, ok := x.Fn.(*ssa.Function)
+			if !ok {
+				return false
+			}
+			for i, b := range x.Bindings {
+				if b != a {
+					continue
+				}
+				if i >= len(fn.FreeVars) {
+					return false
+				}
+				for _, fr := range *fn.FreeVars[i].Referrers() {
+					switch fr.(type) {
+					case *ssa.UnOp, *ssa.DebugRef:
+					default:
+						return false
+					}
+				}
+			}
 		default:
 			return false
 		}
@@ -352,6 +397,96 @@ func (e *gEngine) analyse(f *ssa.Function, args []lat, depth int) *fnAnalysis {
 		}
 		return latBot
 	}
+	// branch refinements: value -> lattice on blocks dominated by a branch successor,
+	// and per-edge refinements used for phi operands.
+	refine := map[int]map[ssa.Value]lat{}
+	type edgeKey struct{ from, succ int }
+	edgeRef := map[edgeKey]map[ssa.Value]lat{}
+	addRef := func(from *ssa.BasicBlock, succ int, v ssa.Value, l lat) {
+		switch v.(type) {
+		case *ssa.Const, *ssa.Global, *ssa.Function:
+			return
+		}
+		ek := edgeKey{from.Index, succ}
+		if edgeRef[ek] == nil {
+			edgeRef[ek] = map[ssa.Value]lat{}
+		}
+		edgeRef[ek][v] = l
+		b := from.Succs[succ]
+		if len(b.Preds) != 1 {
+			return
+		}
+		m := refine[b.Index]
+		if m == nil {
+			m = map[ssa.Value]lat{}
+			refine[b.Index] = m
+		}
+		m[v] = l
+	}
+	for _, b := range f.Blocks {
+		ifi, ok := b.Instrs[len(b.Instrs)-1].(*ssa.If)
+		if !ok {
+			continue
+		}
+		cond := ifi.Cond
+		tb, fb := 0, 1
+		for {
+			if u, ok := cond.(*ssa.UnOp); ok && u.Op == token.NOT {
+				cond = u.X
+				tb, fb = fb, tb
+				continue
+			}
+			break
+		}
+		if b.Succs[0] == b.Succs[1] {
+			continue
+		}
+		if bo, ok := cond.(*ssa.BinOp); ok && (bo.Op == token.EQL || bo.Op == token.NEQ) {
+			eqB, neB := tb, fb
+			if bo.Op == token.NEQ {
+				eqB, neB = fb, tb
+			}
+			for _, pr := range [][2]ssa.Value{{bo.X, bo.Y}, {bo.Y, bo.X}} {
+				if k, ok := pr[1].(*ssa.Const); ok {
+					kl := constLat(k)
+					if kl.k == kTop {
+						continue
+					}
+					addRef(b, eqB, pr[0], kl)
+					if kl.k == kNil {
+						addRef(b, neB, pr[0], latNonNil)
+					} else if kl.isTrue() {
+						addRef(b, neB, pr[0], latFalse)
+					} else if kl.isFalse() {
+						addRef(b, neB, pr[0], latTrue)
+					}
+				}
+			}
+		} else if _, isConst := cond.(*ssa.Const); !isConst {
+			addRef(b, tb, cond, latTrue)
+			addRef(b, fb, cond, latFalse)
+		}
+	}
+	curBlock := 0
+	baseGet := get
+	get = func(v ssa.Value) lat {
+		l := baseGet(v)
+		if len(refine) == 0 || l.k == kBot {
+			return l
+		}
+		for b := f.Blocks[curBlock]; b != nil; b = b.Idom() {
+			if m := refine[b.Index]; m != nil {
+				if r, ok := m[v]; ok {
+					// the refinement is only used to sharpen an imprecise value
+					if l.k == kTop || (l.k == kNonNil && r.k == kNonNil) {
+						return r
+					}
+					return l
+				}
+			}
+		}
+		return l
+	}
 	execBlock[0] = true
 	work := []int{0}
 	inWork := map[int]bool{0: true}
@@ -372,7 +507,10 @@ func (e *gEngine) analyse(f *ssa.Function, args []lat, depth int) *fnAnalysis {
 		work = work[1:]
 		inWork[bi] = false
 		b := f.Blocks[bi]
+		curBlock = bi
 		changed := false
+		selfAgain := false
+		memChanged := false
 		// memory in-state
 		mem := map[*ssa.Alloc]lat{}
 		first := true
@@ -400,6 +538,17 @@ func (e *gEngine) analyse(f *ssa.Function, args []lat, depth int) *fnAnalysis {
 				}
 			}
 		}
+		pushUsers := func(v ssa.Value) {
+			if rs := v.Referrers(); rs != nil {
+				for _, r := range *rs {
+					if rb := r.Block(); rb != nil && execBlock[rb.Index] && rb.Index != bi {
+						push(rb.Index)
+					} else if rb != nil && rb.Index == bi {
+						selfAgain = true
+					}
+				}
+			}
+		}
 		set := func(v ssa.Value, l lat) {
 			old, ok := vals[v]
 			nl := l
@@ -409,6 +558,7 @@ func (e *gEngine) analyse(f *ssa.Function, args []lat, depth int) *fnAnalysis {
 			if !ok || !old.eq(nl) {
 				vals[v] = nl
 				changed = true
+				pushUsers(v)
 			}
 		}
 		setTuple := func(v ssa.Value, t []lat) {
@@ -416,6 +566,7 @@ func (e *gEngine) analyse(f *ssa.Function, args []lat, depth int) *fnAnalysis {
 			if old == nil {
 				tuples[v] = append([]lat(nil), t...)
 				changed = true
+				pushUsers(v)
 				return
 			}
 			for i := range t {
@@ -424,6 +575,7 @@ func (e *gEngine) analyse(f *ssa.Function, args []lat, depth int) *fnAnalysis {
 					if !n.eq(old[i]) {
 						old[i] = n
 						changed = true
+						pushUsers(v)
 					}
 				}
 			}
@@ -439,7 +591,21 @@ func (e *gEngine) analyse(f *ssa.Function, args []lat, depth int) *fnAnalysis {
 				l := latBot
 				for i, p := range b.Preds {
 					if execEdge[edge{p.Index, bi}] {
-						l = join(l, get(x.Edges[i]))
+						curBlock = p.Index
+						ev := get(x.Edges[i])
+						curBlock = bi
+						if ev.k == kTop {
+							for si, sb := range p.Succs {
+								if sb == b {
+									if m := edgeRef[edgeKey{p.Index, si}]; m != nil {
+										if r, ok := m[x.Edges[i]]; ok {
+											ev = r
+										}
+									}
+								}
+							}
+						}
+						l = join(l, ev)
 					}
 				}
 				set(x, l)
@@ -455,7 +621,23 @@ func (e *gEngine) analyse(f *ssa.Function, args []lat, depth int) *fnAnalysis {
 			case *ssa.UnOp:
 				set(x, e.unop(x, get, mem, tracked))
 			case *ssa.BinOp:
-				set(x, binop(x, get(x.X), get(x.Y)))
+				matched := false
+				for _, ba := range e.q.BinAssumes {
+					if ba.Match(x, f) {
+						m := e.sites[ba.Name]
+						if m == nil {
+							m = map[string]bool{}
+							e.sites[ba.Name] = m
+						}
+						m[e.q.P.pos(x.Pos())] = true
+						set(x, ba.Val)
+						matched = true
+						break
+					}
+				}
+				if !matched {
+					set(x, binop(x, get(x.X), get(x.Y)))
+				}
 			case *ssa.Call:
 				res, noret := e.call(f, x, get, depth)
 				if noret {
@@ -563,7 +745,7 @@ func (e *gEngine) analyse(f *ssa.Function, args []lat, depth int) *fnAnalysis {
 		// memory out
 		if memOut[bi] == nil {
 			memOut[bi] = mem
-			changed = true
+			memChanged = true
 		} else {
 			for k, v := range mem {
 				if o, ok := memOut[bi][k]; !ok || !o.eq(v) {
@@ -572,7 +754,7 @@ func (e *gEngine) analyse(f *ssa.Function, args []lat, depth int) *fnAnalysis {
 					}
 					if !ok || !o.eq(v) {
 						memOut[bi][k] = v
-						changed = true
+						memChanged = true
 					}
 				}
 			}
@@ -584,19 +766,14 @@ func (e *gEngine) analyse(f *ssa.Function, args []lat, depth int) *fnAnalysis {
 					execEdge[ed] = true
 					execBlock[s] = true
 					push(s)
-				} else if changed {
+				} else if memChanged {
 					push(s)
 				}
 			}
 		}
-		if changed {
-			// values defined here may be used in any dominated block or phi; re-run all executable blocks
-			// reachable (cheap: functions are small)
-			for i, ex := range execBlock {
-				if ex && i != bi {
-					push(i)
-				}
-			}
+		_ = changed
+		if selfAgain {
+			// a value defined later in this block feeds an earlier instruction (loop header phi)
 			push(bi)
 		}
 	}
@@ -751,6 +928,10 @@ func convert(x *ssa.Convert, v lat) lat {
 	case kBigSlice:
 		// []byte <-> string keep the "oversized" length
 		return latBigSlice
+	case kNonEmpty:
+		return latNonEmpty
+	case kPosInt:
+		return latTop
 	case kBigInt:
 		if b, ok := x.Type().Underlying().(*types.Basic); ok && b.Info()&types.IsInteger != 0 {
 			switch b.Kind() {
@@ -822,7 +1003,7 @@ func binop(x *ssa.BinOp, a, b lat) lat {
 			switch l.k {
 			case kNil:
 				return 1
-			case kNonNil, kBigSlice:
+			case kNonNil, kBigSlice, kNonEmpty:
 				return 2
 			}
 			return 0
@@ -850,6 +1031,58 @@ func binop(x *ssa.BinOp, a, b lat) lat {
 		if zero(a) {
 			return fit(latInt(0), x.Type())
 		}
+	}
+	// lengths of non-empty slices compared with constants <= 0 / < 1
+	if a.k == kPosInt || b.k == kPosInt {
+		pos, other, left := a, b, true
+		if b.k == kPosInt {
+			pos, other, left = b, a, false
+		}
+		_ = pos
+		if other.k == kConst && other.c.Kind() == constant.Int {
+			sg := constant.Sign(other.c) // other <= 0 ?
+			o := op
+			if !left { // mirror: other OP pos  ==  pos OP' other
+				switch op {
+				case token.LSS:
+					o = token.GTR
+				case token.LEQ:
+					o = token.GEQ
+				case token.GTR:
+					o = token.LSS
+				case token.GEQ:
+					o = token.LEQ
+				}
+			}
+			isOne := constant.Compare(other.c, token.EQL, constant.MakeInt64(1))
+			switch o { // pos o other
+			case token.EQL:
+				if sg <= 0 {
+					return latFalse
+				}
+			case token.NEQ:
+				if sg <= 0 {
+					return latTrue
+				}
+			case token.GTR:
+				if sg <= 0 {
+					return latTrue
+				}
+			case token.GEQ:
+				if sg <= 0 || isOne {
+					return latTrue
+				}
+			case token.LSS:
+				if sg <= 0 || isOne {
+					return latFalse
+				}
+			case token.LEQ:
+				if sg <= 0 {
+					return latFalse
+				}
+			}
+		}
+		return latTop
 	}
 	// oversized lengths: ω compared with anything that is not itself ω
 	if a.k == kBigInt || b.k == kBigInt {
@@ -892,10 +1125,11 @@ func boolLat(b bool) lat {
 }
 
 // calleeNames lists the possible callees of a call site as names:
-//   static function:   f.String() with the circl prefix stripped, e.g. "bytes.Equal",
-//                      "(*sign/ed25519.PublicKey).Equal", "crypto/subtle.ConstantTimeCompare"
-//   builtin:           "builtin.len"
-//   interface method:  "invoke " + types.Func.FullName() (prefix stripped), plus resolved targets
+//
+//	static function:   f.String() with the circl prefix stripped, e.g. "bytes.Equal",
+//	                   "(*sign/ed25519.PublicKey).Equal", "crypto/subtle.ConstantTimeCompare"
+//	builtin:           "builtin.len"
+//	interface method:  "invoke " + types.Func.FullName() (prefix stripped), plus resolved targets
 func (p *Program) staticCalleeName(c *ssa.CallCommon) string {
 	if c.IsInvoke() {
 		return "invoke " + short(c.Method.FullName())
@@ -967,6 +1201,8 @@ func (e *gEngine) call(f *ssa.Function, x *ssa.Call, get func(ssa.Value) lat, de
 				return []lat{latBot}, false
 			case kBigSlice:
 				return apply([]lat{latBigInt}, name), false
+			case kNonEmpty:
+				return []lat{latPosInt}, false
 			case kConst:
 				if v.c.Kind() == constant.String {
 					return []lat{latInt(int64(len(constant.StringVal(v.c))))}, false
